@@ -130,7 +130,7 @@ func tokenList() []token {
 		mk("actor", "rene", false), mk("participant", "rené descartes", false),
 		mk("label", "prod", false), mk("label", "Good first issue", false),
 		mk("title", "Critical", false), mk("title", "Typo in string", false), mk("title", "a:b", false),
-		mk("nolabel", "", false), mkMeta("github-id", "42", false), mkMeta("origin", "two words", false),
+		mk("nolabel", "", false), mkMeta("github-id", "42", false), mkMeta("tracker url", "two words", false),
 		mk("search", "word", false), mk("search", "two words", false), mk("search", "é", false),
 		// double-quoted values containing apostrophes (one, one, two)
 		mk("title", "can't reproduce", false), mk("label", "it's", false), mk("search", "'tis 'twas", false),
